@@ -442,7 +442,14 @@ func (b *base) ToBinary(i1 frontend.Variable, n ...int) []frontend.Variable {
 		nb = n[0]
 	}
 	b.cfg.count("tobinary")
-	b.noteCheck("nbits", i1, nb)
+	if b.cfg.Leaves != nil || b.cfg.TrackBounds {
+		// the engine returns bits as plain uints: give each bit an identity so that provenance and bounds can follow it
+		for i, x := range r {
+			if _, ok := x.(*big.Int); !ok {
+				r[i] = ToBig(x)
+			}
+		}
+	}
 	if b.cfg.TrackBounds {
 		for _, x := range r {
 			b.setBound(x, big.NewInt(1))
